@@ -179,8 +179,9 @@ def describe(quantity):
                 category=quantity.GetCategory(), qtype=quantity.GetQuantityType())
 
 
-def ask(db, q):
-    """One read-only operation on the real code (db is the singleton at this point).  Never raises."""
+def ask(db, q, detail=False):
+    """One read-only operation on the real code (db is the singleton at this point).  Never raises.
+    `detail`: a failure also reports WHICH exception was raised (`cls`: the name of its class; never the text)."""
     from barril.units import Scalar
 
     k = q["q"]
@@ -287,9 +288,9 @@ def ask(db, q):
             qq = ObtainQuantity(q["u"])
             return dict(ok=dict(cat=qq.GetCategory(), unit=qq.GetUnit(), ci=ci_fields(qq.GetCategoryInfo())))
     except RecursionError:
-        return dict(err="runtime")
+        return dict(err="runtime", cls="RecursionError") if detail else dict(err="runtime")
     except Exception as e:
-        return dict(err=err_kind(e))
+        return dict(err=err_kind(e), cls=type(e).__name__) if detail else dict(err=err_kind(e))
     return dict(err="other")
 
 
